@@ -11,7 +11,7 @@ NOTE_T3 = ('T3 (bounded): real functions imported from /repo, independent dense 
 
 P('C01', 'other',
   ['props.shape', 'props.ranks', 'props.erank', 'act_one.copy.tt', 'act_one.copy.scalar', 'act_one.get', 'act_two.add.tt_tt',
-   'act_two.mul.num_tt', 'act_two.mul.tt_num', 'act_two.mul.tt_tt', 'act_two.mul_scalar', 'act_one.norm', 'act_two.accuracy', 'act_two.sub.tt_tt', 'act_two.outer', 'tensors.const.plain', 'act_one.mean', 'act_one.sum', 'lemmas.spotcheck', 'lemmas.TTAlg'], 60,
+   'act_two.mul.num_tt', 'act_two.mul.tt_num', 'act_two.mul.tt_tt', 'act_two.mul_scalar', 'act_one.norm', 'act_two.accuracy', 'act_two.sub.tt_tt', 'act_two.outer', 'tensors.const.plain', 'props.size', 'act_one.mean.uniform', 'act_one.mean.ones', 'act_one.mean.weights', 'act_one.sum', 'transformation.full.d2', 'transformation.full.d3', 'act_one.get_many', 'act_one.get_many.rows', 'data.accuracy_on_data', 'act_many.outer_many.n2', 'act_many.outer_many.n3', 'act_many.outer_many.empty', 'act_many.add_many.n2', 'act_many.add_many.n3', 'lemmas.spotcheck', 'lemmas.TTAlg'], 60,
   ['L-SUMPROD (sum over all multi-indices of a product chain = chain of the mode sums)'],
   'Contract-based: get (loop invariant Q = partial chain => result = val(Y,i)), add tensor+tensor (block-core invariant, '
   'inductive chain lemma => wf, shape, ranks add up, val(result,i) = val(Y1,i)+val(Y2,i) for all d, shapes, ranks), '
@@ -26,7 +26,7 @@ P('C01', 'other',
 P('C02', 'other',
   ['svd.matrix_skeleton.abs.l', 'svd.matrix_skeleton.abs.r', 'svd.matrix_skeleton.abs.m', 'svd.matrix_svd',
    'transformation.truncate.eigh', 'transformation.truncate.svd', 'transformation.truncate.eigh.stab',
-   'transformation.truncate.svd.stab', 'transformation.orthogonalize', 'lemmas.spotcheck'], 60,
+   'transformation.truncate.svd.stab', 'transformation.orthogonalize', 'act_many.add_many.n2', 'act_many.add_many.n3', 'act_many.add_many.n3.freq2', 'lemmas.spotcheck'], 60,
   ['L-ROUND (Oseledets 2011 Thm 3.1/Cor 2.4: orthonormal kept factors + per-step discarded energy <= delta^2 => total error <= sqrt(d-1) delta)',
    'L-EY (Eckart-Young)', 'L-ORTHNORM (orthonormal neighbours preserve the Frobenius norm)'],
   'Contract-based (all inputs): rank selection of matrix_skeleton / matrix_svd against the spec function tail(j)=sum_{t>=j} s_t^2 '
@@ -124,7 +124,7 @@ P('C10', 'proof', ['frames.C10', 'utils._rand'], 90, [],
 
 P('C11', 'other',
   ['transformation.orthogonalize', 'act_two.add.tt_tt', 'svd.matrix_svd', 'svd.matrix_skeleton.abs.m',
-   'transformation.truncate.eigh', 'transformation.truncate.svd', 'svd.svd', 'props.erank', 'act_two.accuracy', 'act_one.norm',
+   'transformation.truncate.eigh', 'transformation.truncate.svd', 'svd.svd', 'props.erank', 'act_two.accuracy', 'act_one.norm', 'act_one.mean.uniform', 'act_one.mean.ones', 'act_one.sum', 'data.accuracy_on_data', 'act_many.add_many.n2', 'act_many.add_many.n3', 'act_many.add_many.n3.freq2',
    'sig.svd', 'sig.transformation', 'sig.act_one', 'sig.act_two', 'sig.core', 'sig.anova', 'sig.anova_func', 'sig.cross', 'sig.als'], 40, [],
   'Contract-based (all shapes incl. d=2, n=1, r=1, over-ranked): well-formedness of the results of orthogonalize, add, truncate; '
   'safety obligations: every division / sqrt in matrix_svd (the guarded inverse), erank (a != 0 for d>=3), accuracy (sentinel -1 '
@@ -159,7 +159,7 @@ P('C16', 'other', ['core.core_stab', 'core.core_stab.matrix', 'transformation.or
   '3000, total norms 2^+-30000 against an unbounded-exponent reference.',
   NOTE_T1 + NOTE_T3, 'deductive VCs + bounded big-exponent reference', [])
 
-P('C17', 'other', ['grid.ind_tt_to_qtt.gate', 'core.core_tt_to_qtt.gate', 'svd.matrix_svd', 'grid.ind_tt_to_qtt', 'grid.ind_qtt_to_tt'], 10, [],
+P('C17', 'other', ['grid.ind_tt_to_qtt.gate', 'core.core_tt_to_qtt.gate', 'svd.matrix_svd', 'grid.grid_prep_opt.int_array', 'grid.ind_tt_to_qtt.batch', 'grid.ind_tt_to_qtt.single', 'grid.ind_qtt_to_tt.batch', 'grid.ind_qtt_to_tt.single', 'grid.ind_maps.round_trip', 'core.core_qtt_to_tt', 'act_one.qtt_to_tt', 'core.core_tt_to_qtt.shapes', 'act_one.tt_to_qtt'], 10, [],
   'Contract-based: ValueError iff the mode size is not a power of two; shape of the results; single index = batch of one. Bounded: '
   'exhaustive bit maps for q*d <= 10/12, TT<->QTT conversions.', NOTE_T1 + NOTE_T3, 'deductive VCs + exhaustive enumeration', [])
 
